@@ -1395,17 +1395,21 @@ func (g *gen) annotateAndApply(m *model, op *Op) {
 		if prod == b {
 			ri.channel = "own"
 		}
-		switch op.Channel {
-		case "pt_set":
-			m.setSlot(b, "pt", op.Idx, ri)
-		case "st_set":
-			m.setSlot(b, "st", op.Idx, ri)
-		case "fg_set":
-			m.inst[b].fg = ri
-		case "pt_grow":
-			if len(m.inst[b].pt)+op.N <= ptMax {
-				for k := 0; k < op.N; k++ {
-					m.inst[b].pt = append(m.inst[b].pt, ri)
+		// With CloseOnContextDone the exit-code check at function entry rejects a call into an already closed
+		// module before its first instruction: the store does not happen (without it the call runs to completion).
+		if rejected := g.h.EnsureTerm && m.isClosed(b); !rejected {
+			switch op.Channel {
+			case "pt_set":
+				m.setSlot(b, "pt", op.Idx, ri)
+			case "st_set":
+				m.setSlot(b, "st", op.Idx, ri)
+			case "fg_set":
+				m.inst[b].fg = ri
+			case "pt_grow":
+				if len(m.inst[b].pt)+op.N <= ptMax {
+					for k := 0; k < op.N; k++ {
+						m.inst[b].pt = append(m.inst[b].pt, ri)
+					}
 				}
 			}
 		}
@@ -1432,6 +1436,11 @@ func (g *gen) annotateAndApply(m *model, op *Op) {
 		if m.isClosed(id) {
 			uac("host-call-on-closed-instance")
 			op.EntryCl, op.ClosedBefore = true, true
+			if g.h.EnsureTerm {
+				// rejected at function entry (see passref): nothing is dereferenced, stored or passed to host.act
+				name = "(rejected at entry)"
+				op.Mutates = true // whatever the twin's call stored is missing here: the parent stops comparing this instance with the twin
+			}
 		}
 		arg := func(i int) int {
 			if i < len(op.Args) {
